@@ -233,7 +233,9 @@ def main():
     ex = cf.ProcessPoolExecutor(max_workers=min(workers, max(1, len(specs))), mp_context=mp.get_context("spawn"))
     futs = [ex.submit(L.fit_case, s) for s in specs]
     run.check_proofs("Properties/C15.v", ["Proofs/RecoveryProofs.v"])
+    run.log("theorems re-checked: %s" % run.proof_ok)
     run.ensure_models(["Model/RecoveryRun.v", "Model/CasesLib.v"])
+    run.log("models built")
     obs = [f.result() for f in futs]
     ex.shutdown()
     run.log("fits done")
@@ -294,34 +296,43 @@ def main():
         if not m["noise_bound_holds"]:
             raise RuntimeError("generator broke its own noise bound (harness bug): %r" % spec)
 
-    # ---- Coq: stored parameters, generator, aggregates, verdicts
-    prelude = ""
-    shard = 1 if run.quick() else 6
-    bad = run.coq_cases("fit", IMPORTS, prelude, [c[0] for c in fit_cases], "check_fit", shard=shard, case_type="fitcase")
+    # ---- Coq: stored parameters, generator, aggregates, verdicts; boxes (one round of coqc)
+    items = []          # (term, stream, payload), grouped by building so that every shard gets a similar load
+    by_spec = {}
+    for t, spec, o, m in fit_cases:
+        by_spec.setdefault(vlib.sha(spec), []).append(("(AFit %s)" % t, "fit", (spec, o, m)))
+    for stream, cases, ctor in (("final_box", final_cases, "AFinalBox"), ("initial_box", initial_cases, "AInitialBox"),
+                                ("gen_in_box", inbox_cases, "AGenInBox")):
+        for t, spec, comp, h in cases:
+            by_spec.setdefault(vlib.sha(spec), []).append(("(%s %s)" % (ctor, t), stream, (spec, comp, h)))
+    for k in by_spec:
+        items += by_spec[k]
+    shard = max(1, -(-len(items) // 12)) if run.quick() else 24
+    run.log("evaluating %d cases inside coqc (%d per file)" % (len(items), shard))
+    bad = run.coq_cases("all", IMPORTS, "", [it[0] for it in items], "check_any", shard=shard, case_type="anycase")
+    del run.cov["streams"]["all"]
+    for _, stream, _ in items:
+        st = run.cov["streams"].setdefault(stream, {"cases": 0, "disagreements": 0})
+        st["cases"] += 1
     if bad is None:
         run.proof_ok = False
-    else:
-        for i in bad:
-            _, spec, o, m = fit_cases[i]
-            expl = run.coq_eval(IMPORTS, "Definition cs : fitcase := %s." % fit_cases[i][0], "explain_fit cs") if len(bad) <= 3 else None
+        bad = []
+    for i in bad:
+        term, stream, payload = items[i]
+        run.cov["streams"][stream]["disagreements"] += 1
+        if stream == "fit":
+            spec, o, m = payload
+            expl = run.coq_eval(IMPORTS, "Definition cs : fitcase := %s." % term[len("(AFit "):-1], "explain_fit cs") if len(bad) <= 3 else None
             run.corr_failures.append({"stream": "fit", "case": {"spec": spec}, "impl": {"metrics": m, "submodels": o["submodels"]},
                                       "model": expl})
-    for stream, cases, fn, ctype in (("final_box", final_cases, "check_final_box", "boxcase"),
-                                      ("initial_box", initial_cases, "check_initial_box", None),
-                                      ("gen_in_box", inbox_cases, "check_gen_in_box", None)):
-        if not cases:
-            continue
-        bad = run.coq_cases(stream, IMPORTS, prelude, [c[0] for c in cases], fn, shard=4 if run.quick() else 24, case_type=ctype)
-        if bad is None:
-            run.proof_ok = False
-            continue
-        for i in bad:
-            _, spec, comp, h = cases[i]
+        else:
+            spec, comp, h = payload
             run.corr_failures.append({"stream": stream, "case": {"spec": spec, "component": comp},
                                       "impl": {"key": h["key"], "coef_id": h["coef_id"], "bnds": h["bnds"], "nmin": h["nmin"],
                                                "T_sorted_ends": sorted(h["T"])[:12] + sorted(h["T"])[-12:],
                                                "obs_quantiles": [float(q) for q in np.quantile(h["obs"], [0.01, 0.25, 0.75, 0.99])]},
-                                      "model": "Model/Recovery.v %s disagrees with the recorded box" % fn})
+                                      "model": "Model/Recovery.v disagrees with the recorded box (%s)" % stream})
+    run.log("coq evaluation done: %d disagreements" % len(bad))
 
     # ---- evidence: the measured certificate
     if cert:
